@@ -10,8 +10,9 @@ from registry import reg, Check
 class C10Check(Check):
     """C10: in the thorough tier the same harness is also built with -race and
     runs an unsynchronised workload; its reports are handed to the normal
-    harness run, which turns them into cases (CEvent 3: Leaf.Update || Delete,
-    the known finding; CEvent 4: anything else, a violation)."""
+    harness run, which turns every report into a case (CEvent 4: tag 5, a
+    violation; the former exemption for Leaf.Update / Children vs Delete went
+    away with repo commit 3480f62)."""
 
     def run_harness(self, binary, outdir, seed, tier, replay=None):
         self.env.pop("VERIF_C10_RACE", None)
@@ -33,14 +34,11 @@ class C10Check(Check):
             for blk in out.split("==================")[1:]:
                 if "DATA RACE" not in blk:
                     continue
-                if "ctree.(*Leaf).Update" in blk and "ctree.(*Tree).internalDelete" in blk:
-                    kf += 1
-                else:
-                    other += 1
-                    if not msg:
-                        fns = re.findall(r"^\s+(\S+\(\))\s*$", blk, flags=re.M)
-                        msg = " / ".join(fns[:6])
-            if "fatal error" in out and "DATA RACE" not in out.split("fatal error")[0][-200:]:
+                other += 1
+                if not msg:
+                    fns = re.findall(r"^\s+(\S+\(\))\s*$", blk, flags=re.M)
+                    msg = " / ".join(fns[:6])
+            if "fatal error" in out:
                 other += 1
                 msg = msg or out[out.index("fatal error"):][:200]
             rf = os.path.join(rdir, "race_in.json")
@@ -60,7 +58,7 @@ reg(C10Check(
         "each critical section on one node between two lock operations is one atomic step (justified by C10_no_data_race, which is stated on those sections)",
         "leaf handles are taken to leaves only (a handle to a branch is KF-C09-1)",
     ],
-    modelled=["ctree/tree.go locking protocol: Add (terminalAdd, intermediateAdd incl. the RUnlock->Lock exchange at hook add:upgrade, slowAdd with its re-check), Get + Value (GetLeafValue), Query/Walk (queryInternal/enumerateChildren), Delete (DeleteConditional with the always-true condition: root write lock only), Leaf.Value / Leaf.Update through retained handles; not modelled: WalkSorted, WalkDeleted and DeleteConditional with a real condition (same locking as Walk / Delete), Children, IsBranch, String"],
+    modelled=["ctree/tree.go locking protocol: Add (terminalAdd, intermediateAdd incl. the RUnlock->Lock exchange at hook add:upgrade, slowAdd with its re-check), Get + Value (GetLeafValue), Query/Walk (queryInternal/enumerateChildren), Delete (DeleteConditional with the always-true condition: root write lock, then lockedDelete/internalDelete with the write lock of every visited node), Leaf.Value / Leaf.Update through retained handles; not modelled: WalkSorted, WalkDeleted and DeleteConditional with a real condition (same locking as Walk / Delete), Children, IsBranch, String"],
 ),
-    level_text="Theorems in coq/Props/C10.v are stated over a labelled transition system of the ctree locking protocol (heap of nodes with RWMutex state, one thread per API call, one step per lock operation or guarded critical section) for all programs and all interleavings: lock coupling, strictly increasing lock order, deadlock freedom, absence of data races except leaf-handle vs Delete (refuted with a witness = known finding), exclusivity of Delete, the re-check after the reader->writer exchange and survival of all concurrent adds; plus soundness of the executable linearizability checker. The LTS is tied to ctree/tree.go by forced schedules (workers parked at add:upgrade, in Query visitors and in a paused Leaf.Update; thread statuses and TryLock probes of every node after every step must be producible by the LTS) and the implementation's histories (forced and free-running with 2..16 goroutines) are judged in Coq by the verified linearizability checker against the C09 flat specification, a weak query specification and a lock-coupling rule.",
+    level_text="Theorems in coq/Props/C10.v are stated over a labelled transition system of the ctree locking protocol (heap of nodes with RWMutex state, one thread per API call, one step per lock operation or guarded critical section) for all programs and all interleavings: lock coupling, strictly increasing lock order, deadlock freedom, absence of data races (unconditional for the current Delete, which locks every node it visits; the pre-3480f62 variant is kept as CDeleteUnlocked with a refutation witness), exclusivity of Delete, the re-check after the reader->writer exchange and survival of all concurrent adds; plus soundness of the executable linearizability checker. The LTS is tied to ctree/tree.go by forced schedules (workers parked at add:upgrade, in Query visitors and in a paused Leaf.Update; thread statuses and TryLock probes of every node after every step must be producible by the LTS) and the implementation's histories (forced and free-running with 2..16 goroutines) are judged in Coq by the verified linearizability checker against the C09 flat specification, a weak query specification and a lock-coupling rule.",
     level_note="linearizable_point_ops / quiescent_serializable / query_stability are NOT proved over the LTS (partial: see the comment at the end of Props/C10.v); they are checked on the implementation's own histories by the verified checker. Go memory-model races are only exhibited by the race detector (thorough tier).")
